@@ -37,7 +37,7 @@ PROFILES = {
     "rep":    (["chr", "alt", "rep", "star"], LETTERS[:2], {}),
     "repx":   (["chr", "alt", "rep", "ccl"], LETTERS[:2], {"posix": True}),
     "grp":    (["chr", "ccl", "dot", "grp", "alt", "star", "str"], [97, 98, 65, 66, 10], {}),
-    "ci":     (["chr", "str", "ccl", "posix", "negccl", "alt", "plus", "grp"], [97, 98, 65, 66, 48, 10], {"ci": True}),
+    "ci":     (["chr", "str", "ccl", "posix", "negccl", "alt", "plus", "grp", "rep"], [97, 98, 65, 66, 48, 10], {"ci": True}),
     "ref":    (["chr", "ccl", "alt", "star", "ref", "opt"], LETTERS + [10], {"ndefs": 2}),
     "nul":    (["chr", "str", "ccl", "negccl", "dot", "star", "alt"], [0, 97, 98, 10], {}),
     "high":   (["chr", "str", "ccl", "negccl", "dot", "plus", "alt"], [128, 255, 97, 0, 10, 200], {}),
